@@ -62,7 +62,7 @@ def cells(tier, seed):
     out = []
     rng = gen.rng_for(seed, "C03cells", tier)
     if tier == "quick":
-        Ds, Rs, klms = (1, 2, 3), (1, 3), [(2, 3, 1), (1, 2, 3)]
+        Ds, Rs, klms = (1, 2, 3, 4), (1, 3), [(2, 3, 1), (1, 2, 3)]
     else:
         Ds, Rs, klms = (1, 2, 3, 4, 5, 6), (1, 2, 4), [(2, 3, 1), (1, 2, 3), (3, 1, 2), (4, 5, 2),
                                                         (5, 3, 4), (2, 4, 5)]
